@@ -330,3 +330,8 @@ func WatchReport() []string      { return nil }
 // RunAs runs fn as another thread with respect to lock ownership (the engine is single threaded; background
 // steps that the harness scheduler runs must not inherit the client's locks). INTERCEPTED.
 func RunAs(thread int, fn func()) { fn() }
+
+// TryRunAs is RunAs, except that under the engine a call that has to wait for a lock of another model thread
+// before it has done anything is abandoned: false is returned and the caller tries again later (in a real run the
+// call would wait at that point). INTERCEPTED.
+func TryRunAs(thread int, fn func()) bool { fn(); return true }
